@@ -191,6 +191,20 @@ def boundaries():
             for d in (-1, 0, 1):
                 out.add(base + d)
                 out.add(-(base + d))
+    # the limits of every machine integer width and of the other number systems a codec might pass through
+    # (two's complement, IEEE doubles, decimal digits), around which a special case would sit
+    for k in range(1, 401):
+        for d in (-2, -1, 0, 1, 2):
+            out.add(2 ** k + d)
+            out.add(-(2 ** k) + d)
+    for k in range(1, 40):
+        for d in (-1, 0, 1):
+            out.add(10 ** k + d)
+            out.add(-(10 ** k) + d)
+    for x in (2 ** 53, 2 ** 24, 0xFFFFFFFF, 0x7FFFFFFF, 0xFFFFFFFFFFFFFFFF, 0x7FFFFFFFFFFFFFFF, 1 << 62, (1 << 63) - 1, 1 << 31):
+        for d in (-1, 0, 1):
+            out.add(x + d)
+            out.add(-x + d)
     return sorted(out)
 
 
